@@ -274,6 +274,15 @@ func NormalizeSchema(m proto.Message) {
 				sub := v.Message()
 				walk(sub)
 				name := string(fd.Name())
+				if name == "format" && sub.Descriptor().Name() == "KeyFormat" {
+					// an informal key format and no key format are the same declaration
+					if od := sub.Descriptor().Oneofs().ByName("type"); od != nil {
+						if w := sub.WhichOneof(od); w != nil && w.Name() == "informal" {
+							msg.Clear(fd)
+							return true
+						}
+					}
+				}
 				if name == "rules" || name == "ext" || name == "list_rules" || name == "filtering" || name == "sorting" || name == "searching" {
 					empty := true
 					sub.Range(func(protoreflect.FieldDescriptor, protoreflect.Value) bool { empty = false; return false })
